@@ -8,16 +8,64 @@ Q = "nasim.scenarios."
 
 
 @contract
-class GenerateScenarioModel(Contract):
-    """call-site model of generate_scenario(**params): records the parameters it was called with; the generator
-    itself is covered by C14/C15/C16"""
-    qualname = Q + "generate_scenario"
+class GenerateMethodModel(Contract):
+    """call-site model of ScenarioGenerator.generate, used only inside the verification of generate_scenario (the
+    generator itself is covered by C14 / C15 / C16)"""
+    qualname = "nasim.scenarios.generator.ScenarioGenerator.generate"
     verify = False
+    callable_by_contract = staticmethod(lambda I: bool(I.ext_state.get("model_generator_generate")))
     tags = {"": ("C19", "C14")}
+
+    def bind(self, I, fi, args, kwargs):
+        return Scope(a={"args": list(args), "kwargs": dict(kwargs)})
+
+    def havoc(self, I, S):
+        I.ext_state["generator_generate_call"] = dict(S.a)
+        r = Opaque("scenario returned by ScenarioGenerator.generate")
+        I.ext_state["generator_generate_result"] = r
+        return r
+
+
+@contract
+class GenerateScenario(Contract):
+    """generate_scenario(num_hosts, num_services, **params): a generator object of its own (allocated by this call, no
+    process-wide instance), handed exactly the caller's parameters; returns what it generates.  At call sites the
+    model below records the parameters."""
+    qualname = Q + "generate_scenario"
+    bounded = False
+    tags = {"": ("C19", "C14", "C15")}
+
+    def setup(self, I, variant):
+        I.ext_state["model_generator_generate"] = True
+        nh, ns, seed = SymV(z3.Int("arg_num_hosts"), "int"), SymV(z3.Int("arg_num_services"), "int"), SymV(z3.Int("arg_seed"), "int")
+        S = Scope()
+        S.extra.update(nh=nh, ns=ns, seed=seed, verifying=True)
+        S.a = {}
+        S.call_args = ([nh, ns], {"seed": seed, "num_os": 3})
+        return S
 
     def bind(self, I, fi, args, kwargs):
         S = Scope(a={"args": list(args), "kwargs": dict(kwargs)})
         return S
+
+    def ensures(self, I, S):
+        if getattr(S, "callsite", False):
+            return []
+        call = I.ext_state.get("generator_generate_call")
+        ok = call is not None and len(call["args"]) >= 1 and isinstance(call["args"][0], Obj)
+        out = [("C19.generates-with-a-generator", z3.BoolVal(bool(ok)))]
+        if not ok:
+            return out
+        g = call["args"][0]
+        out.append(("C19.generator-object-is-its-own", z3.BoolVal(g.cls.name == "ScenarioGenerator" and g.fresh
+                                                                 and not getattr(g, "module_level_instance", False))))
+        pos, kw = call["args"][1:], call["kwargs"]
+        e = S.extra
+        out.append(("C14.parameters-handed-through-unchanged", z3.BoolVal(
+            len(pos) == 2 and pos[0] is e["nh"] and pos[1] is e["ns"] and set(kw) == {"seed", "num_os"}
+            and kw.get("seed") is e["seed"] and kw.get("num_os") == 3)))
+        out.append(("C19.returns-the-generated-scenario", z3.BoolVal(S.result is I.ext_state.get("generator_generate_result"))))
+        return out
 
     def havoc(self, I, S):
         I.ext_state["generate_called_with"] = S.a["kwargs"]
@@ -75,14 +123,44 @@ class MakeBenchmarkScenario(Contract):
 # ---------------------------------------------------------------------------- nasim.make_benchmark / load / generate
 
 @contract
-class LoadScenarioModel(Contract):
-    """call-site model of load_scenario(path, name): some scenario (the loader itself is covered by C17 / C18)"""
+class LoadScenario(Contract):
+    """load_scenario(path, name): a loader object of its own (allocated by this call, no process-wide instance) loads
+    exactly that file under exactly that name; returns what it loads.  (The loader itself: C17 / C18.)"""
     qualname = Q + "load_scenario"
-    verify = False
-    tags = {"": ("C12", "C10")}
+    bounded = False
+    optional_params_modelled = ("name",)
+    tags = {"": ("C12", "C10", "C19", "C17", "C06")}
+
+    def variants(self):
+        return ["name-given", "name-default"]
+
+    def setup(self, I, variant):
+        I.ext_state["model_loader_load"] = True
+        S = Scope()
+        S.extra.update(variant=variant)
+        S.a = {}
+        S.call_args = (["some/dir/file.yaml"], {"name": "my-name"} if variant == "name-given" else {})
+        return S
 
     def bind(self, I, fi, args, kwargs):
         return Scope(a={"args": list(args), "kwargs": dict(kwargs)})
+
+    def ensures(self, I, S):
+        if getattr(S, "callsite", False):
+            return []
+        call = I.ext_state.get("loader_load_call")
+        ok = call is not None and isinstance(call.get("self"), Obj)
+        out = [("C19.loads-with-a-loader", z3.BoolVal(bool(ok)))]
+        if not ok:
+            return out
+        lo = call["self"]
+        out.append(("C19.loader-object-is-its-own", z3.BoolVal(lo.cls.name == "ScenarioLoader" and lo.fresh
+                                                              and not getattr(lo, "module_level_instance", False))))
+        want_name = "my-name" if S.extra["variant"] == "name-given" else None
+        out.append(("C17.file-and-name-handed-through", z3.BoolVal(call.get("file_path") == "some/dir/file.yaml"
+                                                                  and call.get("name") == want_name)))
+        out.append(("C17.returns-the-loaded-scenario", z3.BoolVal(S.result is I.ext_state.get("loader_load_result"))))
+        return out
 
     def havoc(self, I, S):
         return I.ext_state.get("toplevel_scenario") or Opaque("loaded scenario")
